@@ -14,6 +14,11 @@ PLANS = {
     },
 }
 
+PLANS["C02"] = {
+    "quick": [J("restart", "c=2,f=1", 90)],
+    "thorough": [J("restart", "c=3,f=2,p=1", 900)],
+}
+
 LEVELS = {}
 
 ASSUMPTIONS = {
